@@ -543,7 +543,7 @@ func scModReentrant(ps ParamSet, tmpls []Template, o AlphaOpts, depth, blocks, m
 // ---------------------------------------------------------------------------------------------
 // S-FX: the host chain has a token module (prices may be published in a main unit, "kilo" = 1000 stake, or in a foreign
 // token, "usd" = 100 cent) and an exchange-rate module service ("oracle"). P1 is priced in usd, P2 in stake, P3 in kilo.
-// The rate cent->stake alternates with the height (0.03 at even heights, 0.015 at odd ones); at height failAt the
+// The rate cent->stake cycles with the height (0.03, 0.015, 0: a whole number); at height failAt the
 // exchange-rate service has no answer.
 
 var (
@@ -556,7 +556,8 @@ var (
 var tFxMod = Template{Name: "fxmod", Consumer: "C1", Service: "a", Providers: []string{"P1"}, Cap: 5, Timeout: 1, Repeated: true, Freq: 2, Total: 3, Module: ModOther, Threshold: 1}
 
 func fxSpec(failAt ...int64) *FXSpec {
-	return &FXSpec{Rates: map[string][]string{"cent-stake": {"0.03", "0.015"}}, FailAt: failAt}
+	// 0.03 at heights divisible by 3 ... then 0.015, then a whole-number rate (the rate pattern allows "0", "2", ...)
+	return &FXSpec{Rates: map[string][]string{"cent-stake": {"0.015", "0", "0.03"}}, FailAt: failAt}
 }
 
 func scFX(ps ParamSet, p1pricing string, tmpls []Template, o AlphaOpts, fx *FXSpec, depth, blocks, msgs int) *Scenario {
@@ -568,9 +569,10 @@ func scFX(ps ParamSet, p1pricing string, tmpls []Template, o AlphaOpts, fx *FXSp
 	return &Scenario{
 		Name: "S-FX(" + p1pricing + ")", Params: ps,
 		Rig:   RigConfig{FX: fx, CallbackModules: []string{ModOther}},
-		Funds: []Funding{{O1, 200}, {O2, 200}, {C1, 12}, {C2, 2}}, Extra: allAccounts,
+		Funds: []Funding{{O1, 400}, {O2, 200}, {C1, 12}, {C2, 2}}, Extra: allAccounts,
 		Setup: []Action{install, actDefine("a", "AU"),
-			actBind("a", "P1", "O1", 10, p1pricing, 1), actBind("a", "P2", "O2", 10, "p1", 1), actBind("a", "P3", "O2", 10, "fkilo2", 1)},
+			// P1's deposit is far above the global minimum, the only one that applies to a price in a foreign token
+			actBind("a", "P1", "O1", 200, p1pricing, 1), actBind("a", "P2", "O2", 10, "p1", 1), actBind("a", "P3", "O2", 10, "fkilo2", 1)},
 		Templates: tmpls,
 		Alpha:     lifeAlpha(o),
 		Depth:     depth, MaxBlocks: blocks, MaxMsgs: msgs,
